@@ -187,8 +187,33 @@ def gen_c01(r):
     return ["readback", ctor, reader], o, True
 
 
+def rnd_pairs(r, lens, distinct=False):
+    cells = [(i, j) for i, l in enumerate(lens) for j in range(l)]
+    n = len(lens)
+    k = r.randint(1, 5)
+    if not cells:
+        return [r.randint(-1, 1) for _ in range(k)], [0] * k
+    if distinct:
+        r.shuffle(cells)
+        pick = cells[:k]
+    else:
+        pick = [r.choice(cells) for _ in range(k)]
+    rows = [i if r.random() < 0.6 else i - n for i, _ in pick]
+    cols = [j if r.random() < 0.5 else j - lens[i] for i, j in pick]
+    if r.random() < 0.15:                          # one pair that does not exist: refused
+        q = r.randrange(len(pick))
+        cols[q] = r.choice([lens[pick[q][0]], -lens[pick[q][0]] - 1])
+    return rows, cols
+
+
 def gen_c02(r):
     lens = rnd_lens(r, 8, 6)
+    if r.random() < 0.05:
+        arr = rnd_arr(r, r.choice(["i8", "i4", "f8", "u1", "b1"]), lens, distinct=True)
+        rows, cols = rnd_pairs(r, lens)
+        o = opts_for(r, "getitem")
+        o["listkind"] = r.choice(["list", "array"])
+        return ["getpairs", arr, rows, cols], o, False
     if r.random() < 0.04:
         lens = [r.randint(0, 6) for _ in range(r.randint(20, 40))]
     arr = rnd_arr(r, r.choice(["i8", "i8", "i4", "f8", "b1", "u1", "i2"]), lens, distinct=True)
@@ -236,6 +261,13 @@ def gen_c03(r):
     dt = r.choice(["i8", "i8", "i4", "f8", "f8", "u1", "i2", "b1", "f4"])
     arr = rnd_arr(r, dt, lens, distinct=True)
     n = len(lens)
+    if r.random() < 0.05:
+        rows, cols = rnd_pairs(r, lens, distinct=r.random() < 0.8)
+        val = ["scalar", rnd_val(r, dt)] if r.random() < 0.5 else ["flat", [rnd_val(r, dt) for _ in rows]]
+        o = opts_for(r, "setitem")
+        o["listkind"] = r.choice(["list", "array"])
+        o["hi"] = 0
+        return ["setpairs", arr, rows, cols, val], o, False
     if r.random() < 0.08:
         rs = ["rmask", [[r.randint(0, 1) for _ in row] for row in arr[1]]]
         cs = ["none"]
